@@ -133,3 +133,38 @@ func VerifH06eServerGroup() {
 		verifrt.Assert(err == nil, "consistent-site-set-accepted")
 	}
 }
+
+// VerifH06dStrictSNIWildcard: the same with a wildcard site that demands client certificates next
+// to a more specific open site: a handshake made under the open site's name (which selects the
+// open site's handshake settings) never gets a request served by the wildcard site, whatever Host
+// the request then names.
+func VerifH06dStrictSNIWildcard() {
+	ranWild, ranOpen := 0, 0
+	wild := &SiteConfig{Addr: Address{Original: "*.b", Host: "*.b"}, TLS: &caskettls.Config{Enabled: true, Hostname: "*.b", ClientAuth: tls.RequireAndVerifyClientCert},
+		middlewareChain: zzRan{&ranWild}}
+	open := &SiteConfig{Addr: Address{Original: "a.b", Host: "a.b"}, TLS: &caskettls.Config{Enabled: true, Hostname: "a.b"}, middlewareChain: zzRan{&ranOpen}}
+	s := &Server{Server: &http.Server{Addr: ":443"}, vhosts: newVHostTrie(), sites: []*SiteConfig{wild, open}}
+	s.vhosts.Insert("*.b", wild)
+	s.vhosts.Insert("a.b", open)
+	names := []string{"a.b", "c.b", "C.b", "d.b", "A.B", "b"}
+	host := names[verifrt.Choose("host", len(names))]
+	rawHost := host
+	if verifrt.Bool("port") {
+		rawHost += ":443"
+	}
+	sni := ""
+	if verifrt.Bool("sni-present") {
+		sni = names[verifrt.Choose("sni", len(names))]
+	}
+	r := &http.Request{Method: "GET", Host: rawHost, URL: &url.URL{Path: "/"}, Header: http.Header{}, ProtoMajor: 1, TLS: &tls.ConnectionState{ServerName: sni}}
+	w := &zzRW6{}
+	status, _ := s.serveHTTP(w, r)
+	if strings.ToLower(sni) != strings.ToLower(host) {
+		verifrt.Assert(ranWild == 0, "client-auth-site-not-served-under-other-name")
+	}
+	if strings.ToLower(host) == "a.b" {
+		verifrt.Assert(ranWild == 0 && ranOpen == 1, "open-site-served-under-its-own-name")
+	}
+	verifrt.Assert(ranWild+ranOpen <= 1, "at-most-one-site")
+	verifrt.Observe("sni", ranWild, ranOpen, status)
+}
